@@ -47,7 +47,7 @@ def hull_cases(draw):
     off = draw(st.sampled_from([0.0, 1.0, -10.0, 100.0, -100.0]))
     return dict(lattice=lattice, data=data, query=query, scale=scale, aspect=aspect, offset=[off * scale, -off * scale * aspect],
                 form=draw(st.sampled_from(["array", "array2d", "grid"])), proj=draw(st.sampled_from([None, None, [2.0, 0.5], [-1.0, 3.0], "polar"])),
-                dshape=draw(st.sampled_from(blocks.shape_options(n))), orders=draw(build.orders_strategy()))
+                dshape=draw(st.sampled_from(blocks.shape_options(n))), orders=draw(build.orders_strategy()), extra=draw(st.sampled_from([0, 0, 1, 2])), qextra=draw(st.sampled_from([0, 0, 1])))
 
 
 def place(pts, case):
@@ -68,7 +68,8 @@ def check_hull(case, ctx):
         ctx.skip("degenerate_hull")
     d = place(case["data"], case)
     lay = build.Lay(case.get("orders"))
-    dcoords = (lay(d[:, 0], case["dshape"]), lay(d[:, 1], case["dshape"]))
+    # further coordinates after easting and northing are documented as ignored
+    dcoords = (lay(d[:, 0], case["dshape"]), lay(d[:, 1], case["dshape"])) + tuple(lay(1e3 + 7.0 * np.arange(d.shape[0]) * (j + 1), case["dshape"]) for j in range(case.get("extra", 0)))
     proj = None
     if case["proj"] == "polar":
         # non-linear and non-separable: easting is an angle, northing a radius (the hull is taken in the projected plane)
@@ -126,7 +127,8 @@ def check_hull(case, ctx):
         qshape = [len(case["query"])]
         if case["form"] == "array2d":
             qshape = blocks.shape_options(len(case["query"]))[-1]
-        mask = np.asarray(vd.convexhull_mask(dcoords, coordinates=(lay(q[:, 0], qshape), lay(q[:, 1], qshape)), **kw))
+        qextra = tuple(lay(-5e2 + 3.0 * np.arange(q.shape[0]), qshape) for _ in range(case.get("qextra", 0)))
+        mask = np.asarray(vd.convexhull_mask(dcoords, coordinates=(lay(q[:, 0], qshape), lay(q[:, 1], qshape)) + qextra, **kw))
         ctx.check(mask.shape == tuple(qshape) and mask.dtype == bool, "mask must be boolean with the query's shape")
         flat = mask.ravel()
         counts = {"in": 0, "out": 0, "on": 0}
